@@ -1616,7 +1616,9 @@ def wtdmig(f, dct):
         if colids.nlevels == 1:
             form = 9
             ncol = colids.max()
-        elif value.shape[0] != value.shape[1]:
+        elif value.shape[0] != value.shape[1] or not rowids.equals(colids):
+            # rectangular, or square with rows and columns on
+            # different DOF (not a square matrix in the DMIG sense)
             form = 2
         else:
             if np.allclose(m.transpose(), m):
